@@ -50,8 +50,9 @@ func (c *Channel) Me() jid.JID {
 func (c *Channel) Joined() bool {
 	c.client.managedM.Lock()
 	defer c.client.managedM.Unlock()
-	_, ok := c.client.managed[c.addr.Bare().String()]
-	return ok
+	// The table is keyed by our address in the room (the occupant address), not
+	// by the address of the room.
+	return c.client.managed[c.addr.String()] == c
 }
 
 // Leave exits the MUC, causing Joined to begin to return false.
@@ -121,6 +122,15 @@ func (c *Channel) LeavePresence(ctx context.Context, status string, p stanza.Pre
 
 	select {
 	case err := <-errChan:
+		if _, ok := err.(stanza.Error); ok {
+			// An unavailable presence is only refused if the room does not (or no
+			// longer) know us as an occupant, so there is nothing left to manage.
+			c.client.managedM.Lock()
+			if c.client.managed[c.addr.String()] == c {
+				delete(c.client.managed, c.addr.String())
+			}
+			c.client.managedM.Unlock()
+		}
 		return err
 	case <-c.depart:
 	case <-ctx.Done():
